@@ -998,6 +998,10 @@ func (v *VResult) checkLeaf(rt *RT, op int, ii *InvokeInfo, g *MFn, l MLeaf, obs
 		for _, si := range deco.SlotsFor(l.Key) {
 			s := deco.Slots[si]
 			for e := 0; e < s.N; e++ {
+				if e == 0 && s.ZeroFirst {
+					want = append(want, "zero")
+					continue
+				}
 				want = append(want, fmt.Sprintf("f%d#%d/%s/%d", deco.ID, deco.OkExec, s.Path, e))
 			}
 		}
@@ -1031,7 +1035,7 @@ func (v *VResult) checkLeaf(rt *RT, op int, ii *InvokeInfo, g *MFn, l MLeaf, obs
 					continue
 				}
 				key := fmt.Sprintf("f%d#%d/%s/%d", f.ID, f.OkExec, s.Path, e)
-				if s.Zero {
+				if s.Zero || (e == 0 && s.ZeroFirst) {
 					key = "zero" // a member that is the zero value carries no token
 				}
 				memberOf[key] = f
